@@ -51,7 +51,7 @@ inductive Req (env : Env) (src dst : Ip) (sport dport : Nat) (p : Bytes) : (Byte
       (hr : smb2Request m = some req)
       (hcommon : ∀ ds, req = .negotiate ds → ds.any smb2Supported.contains = true) :
       Req env src dst sport dport p (fun a => smb2ReplyOk m req a = true) 0
-  | dns (q : DMsg) (a4 : Bytes) (hq : inAQuery p = some q) (hdst : dst = .v4 a4)
+  | dns (q : DMsg) (a4 : Bytes) (hq : DnsFix.inAQueryAny p = some q) (hdst : dst = .v4 a4)
       (hid : refDatagramK2 p = none) (hsz : p.length ≤ 9000) :
       Req env src dst sport dport p (fun a => dnsReplyOk q a a4 = true) 0
 
@@ -97,7 +97,7 @@ theorem app_of_req (cfg : Cfg) (env : Env) (ci : ClientInfo) (src dst : Ip) (spo
     exact ⟨ci, r, hrep, hok, by rw [hpd, hp0], hps, by omega⟩
   | dns q a4 hq hd4 hid hsz =>
     subst hd4
-    obtain ⟨r, hr, hok, hlen⟩ := dns_e2e_K2 cfg env ci p a4 q hq hdst hwd hudp hid
+    obtain ⟨r, hr, hok, hlen⟩ := dns_e2e_K2_full cfg env ci p a4 q hq hdst hwd hudp hid
     exact ⟨ci, r, hr, hok, by rw [hpd, hp0], hps, by omega⟩
 
 /-! ### frame level -/
@@ -221,8 +221,13 @@ example (st : Table) : ∃ r, (step C18.cfgE envD st (udp6 80 "GET / HTTP/1.1\r\
 
 -- IPv4, DNS IN/A query (`C14.q1`): completes no signature, answered by the fallback
 example : deliverable C18.cfgE (udp4 53 C14.q1) false 17 8 = true ∧
-    (l4Bytes (udp4 53 C14.q1)).drop 8 = C14.q1 ∧ (inAQuery C14.q1).isSome = true ∧
+    (l4Bytes (udp4 53 C14.q1)).drop 8 = C14.q1 ∧ (DnsFix.inAQueryAny C14.q1).isSome = true ∧
     refDatagramK2 C14.q1 = none ∧ dstOf false (udp4 53 C14.q1) = .v4 [10, 0, 0, 2] := by decide +kernel
+
+-- the same for `C14.qNul` (`a\0b IN A`: a 0x00 inside the label)
+example : deliverable C18.cfgE (udp4 53 C14.qNul) false 17 8 = true ∧
+    (l4Bytes (udp4 53 C14.qNul)).drop 8 = C14.qNul ∧ (DnsFix.inAQueryAny C14.qNul).isSome = true ∧
+    refDatagramK2 C14.qNul = none ∧ dstOf false (udp4 53 C14.qNul) = .v4 [10, 0, 0, 2] := by decide +kernel
 
 #print axioms app_of_req
 #print axioms udp_request_e2e
